@@ -33,8 +33,8 @@ CHECKS = {
  "C01": dict(
   engine="E1",
   technique=TECH_E1 + "; every (kind x label x context) schema and every ordered field pair x every message in the product of boundary value alphabets, oracle decode(encode(m)) == m",
-  text="Every single-field message type over 23 field kinds x 4 labels x 8 contexts (top, nested, flattened, oneof arm, array element, map value, scalar oneof arm, exposed oneof) and every ordered pair of top-level fields over a 14-kind alphabet, built as raw proto descriptors, is round-tripped for every message in the product of the per-field boundary alphabets (integer extremes, escapes / controls / non-BMP text, float extremes, base64 edge bytes, date/timestamp/decimal boundaries, every enum option incl. gaps and prefix-like names, list and map shapes, optional-with-zero): encode succeeds, decode of the output succeeds, decoded == original under the property's normalisation.",
-  note="values outside the alphabets, >2 top-level fields, nesting >2 not covered; j5s-compiled schemas are exercised by the compiler checks, not here",
+  text="Every single-field message type over 23 field kinds x 4 labels x 8 contexts (top, nested, flattened, oneof arm, array element, map value, scalar oneof arm, exposed oneof) and every ordered pair of top-level fields over a 14-kind alphabet, built as raw proto descriptors, plus every object declared by the j5s single-field / nesting / enum / reference / annotation / bundle programs with the descriptors the real j5s compiler produced for it (~1900 schemas; the value model is derived from the j5s source, not from the compiled descriptor), plus (thorough) every single-field schema placed one level deeper below an object / flattened object / oneof arm / array element / map value, is round-tripped for every message in the product of the per-field boundary alphabets (integer extremes, escapes / controls / non-BMP text, float extremes, base64 edge bytes, date/timestamp/decimal boundaries, every enum option incl. gaps and prefix-like names, list and map shapes, optional-with-zero): encode succeeds, decode of the output succeeds, decoded == original under the property's normalisation.",
+  note="values outside the alphabets, >2 top-level fields, nesting >3 not covered; j5s-compiled schemas are linked against the process-wide registry for well-known types (as generated code is); Any fields of j5s schemas are skipped",
   design="3/C01"),
  "C03": dict(
   engine="E1",
@@ -51,7 +51,7 @@ CHECKS = {
  "C08": dict(
   engine="E1",
   technique=TECH_E1 + "; C01's enumeration, oracle = strict JSON re-read matched against an independent reference encoder; 2-step histories on one codec",
-  text="Every encoding of C01's corpus is re-read with a strict tokenizer (one value, no trailing data, number/string distinction kept) and matched against a reference encoder written from the README table: bare 32-bit ints / floats / bools, quoted 64-bit ints and decimals, padded std base64, RFC 3339 UTC timestamps, zero-padded dates, short enum names, oneof = {\"!type\", arm}, Any = {\"!type\", \"value\"}, flattened members inlined, unset members omitted, schema JSON names, no duplicate members. History oracles: bytes returned by an earlier call stay intact after the next call on the same codec; EncodeAny followed by encoding the parent. Non-representable values (NaN, +-Inf, year 0/10000, month 13, nanos out of range, undefined enum number, invalid UTF-8) must fail or still give valid JSON.",
+  text="Every encoding of C01's corpus (raw descriptors, j5s-compiled descriptors with the wire model derived from the j5s source, two-level contexts in the thorough tier) is re-read with a strict tokenizer (one value, no trailing data, number/string distinction kept) and matched against a reference encoder written from the README table: bare 32-bit ints / floats / bools, quoted 64-bit ints and decimals, padded std base64, RFC 3339 UTC timestamps, zero-padded dates, short enum names, oneof = {\"!type\", arm}, Any = {\"!type\", \"value\"}, flattened members inlined, unset members omitted, schema JSON names, no duplicate members. History oracles: bytes returned by an earlier call stay intact after the next call on the same codec; EncodeAny followed by encoding the parent. Non-representable values (NaN, +-Inf, year 0/10000, month 13, nanos out of range, undefined enum number, invalid UTF-8) must fail or still give valid JSON.",
   note="member order and float digits unconstrained (not documented)",
   design="3/C08"),
  "C18": dict(
